@@ -122,6 +122,7 @@ pub fn handle(op: &str, req: &Value) -> Option<Value> {
             std::thread::sleep(Duration::from_millis(1100));
             a_out = json!(format!("{:?}", block_on(blob.gc())));
         },
+        "full_gc" => a_out = json!(format!("{:?}", block_on(blob.full_gc()))),
         "store_chunk" => {
             // the writer has already stored `writer_already_stored` in this artifact: one put whose data repeats those chunks
             let mut data: Vec<u8> = req["writer_already_stored"].as_array().into_iter().flatten().flat_map(|i| content(i.as_u64().unwrap_or(0))).collect();
